@@ -10,7 +10,7 @@ RULE = ("all team shapes with n<=4 (quick) / n<=5 (thorough) teams of 1..3 playe
         "every slot gets a distinct (mu, sigma), name and id (and again with all players equal-valued, and with equal-valued twin teams in "
         "non-adjacent slots, where only ids/names tell slots apart); every weak order (n<=5) / every tie pattern x generator "
         "permutation (n=8) x encodings {int ranks, float ranks, negative ranks, scores, omitted} x limit_sigma {off, "
-        "model-level, per-call}; oracle: nesting, id and name per slot, each posterior inside the reference interval of "
+        "model-level, per-call} (n = 5: int ranks and scores x {off, per-call}); oracle: nesting, id and name per slot, each posterior inside the reference interval of "
         "THAT player, passed objects all untouched or all equal to the returned rating of the same slot; non-trivial = "
         "outcome order differs from listing order or has ties (the library permutes internally) or a team has >1 player")
 ASSUMPTIONS = ["one rating object placed in two slots is not a valid game", "reference model as in C01"]
@@ -145,9 +145,10 @@ def run_unit(unit, ctx):
     combos = [(sh, r) for sh in spaces.shapes(n, 3) for r in spaces.weak_orders(n)]
     for (shape, r) in spaces.sharded(combos, k, parts):
         ident = list(r) == list(range(n))
-        for enc in ("int", "float", "neg", "scores") + (("omitted",) if ident else ()):
-            for ls in LS_MODES:
-                for assign in (ASSIGN if enc in ("int", "scores") and ls != "model" else ASSIGN[:1]):
+        encs = ("int", "float", "neg", "scores") if n <= 4 else ("int", "scores")
+        for enc in encs + (("omitted",) if ident else ()):
+            for ls in (LS_MODES if n <= 4 else ("off", "call")):
+                for assign in (ASSIGN if enc in ("int", "scores") and ls != "model" and (n <= 4 or enc == "int") else ASSIGN[:1]):
                     acc.evals += 1
                     if (not ident) or max(shape) > 1:
                         acc.nontrivial += 1
